@@ -164,6 +164,13 @@ def huge(rng: random.Random) -> int:
     return rng.choice(HUGE) + rng.choice([0, 0, 1, -1, 3, 15, 16, 17, rng.randint(-1000, 1000)])
 
 
+def edge_dim(rng: random.Random, block: int) -> int:
+    """huge dims sitting exactly on the halving boundary: (block + 1) * 2**k + {-1, 0, 1} — all-ones low bits make any
+    rounding (instead of flooring) of a half carry all the way up and change the overview count"""
+    k = rng.randint(40, 110)
+    return (block + 1) * 2**k + rng.choice([-1, -1, 0, 1, -2, -(2 ** rng.randint(0, 20))])
+
+
 def ceil_to(x: int, a: int) -> int:
     return -(-x // a) * a
 
@@ -632,7 +639,8 @@ def run(R: Run):
         out = R.corr(f"c05 nov {b} {d}", lambda: str(S.num_overviews(b, d)), sig="nov|large")
         R.oracle(out == str(least_k(b, d)), "num-overviews-not-least", {"block": b, "dim": d}, out)
     for _ in range(R.pick(300, 3000)):
-        b, d = rng.choice([16, 256, 512, 1024, huge(rng)]), huge(rng)
+        b = rng.choice([16, 256, 512, 1024, huge(rng)])
+        d = rng.choice([huge(rng), edge_dim(rng, b), edge_dim(rng, b)])
         out = R.corr(f"c05 nov {b} {d}", lambda: str(S.num_overviews(b, d)), sig="nov|huge")
         R.oracle(out == str(least_k(b, d)), "num-overviews-not-least", {"block": b, "dim": d},
                  f"num_overviews={out}, least k with dim//2^k<=block is {least_k(b, d)}")
@@ -672,8 +680,9 @@ def run(R: Run):
         ty, tx = rng.choice([16, 100, 256, 512, 1000]), rng.choice([16, 100, 256, 512, 1000])
         spec_case(y, x, ty, tx, rng.choice([None, None, 0, 1, 2, 3, 16, 31, 1000]))
     for _ in range(R.pick(300, 3000)):
-        y, x = rng.choice([huge(rng), rng.randint(1, 10**6)]), huge(rng)
         ty, tx = rng.choice([16, 100, 256, 512, huge(rng)]), rng.choice([16, 256, 512, 1000])
+        y = rng.choice([huge(rng), rng.randint(1, 10**6), edge_dim(rng, ceil_to(ty, 16))])
+        x = rng.choice([huge(rng), edge_dim(rng, ceil_to(tx, 16))])
         spec_case(y, x, ty, tx, rng.choice([None, None, None, 0, 1, 1000, huge(rng)]))
 
     # ---- yaxis_from_shape
